@@ -12,12 +12,17 @@ import (
 	"encoding/json"
 	"fmt"
 	"reflect"
+	"runtime"
 	"sort"
+	"strconv"
+	"strings"
+	"sync"
 	"sync/atomic"
 	"time"
 
 	"tunnox-core/internal/packet"
 	"tunnox-core/internal/security"
+	"tunnox-core/internal/verifhook"
 	"tunnox-core/verifharness/fw"
 	"tunnox-core/verifharness/srvkit"
 )
@@ -216,6 +221,9 @@ func (r *runner) msg(o opT) (fw.Event, string, string) {
 }
 
 func drive(env *fw.Env, b fw.Behaviour) *fw.Trace {
+	if len(b.Data) > 0 && b.Data[0] == '{' {
+		return driveCleanupRace(env, b)
+	}
 	var ops []opT
 	if err := json.Unmarshal(b.Data, &ops); err != nil {
 		return &fw.Trace{Status: fw.DriverError, Note: err.Error()}
@@ -256,16 +264,29 @@ func drive(env *fw.Env, b fw.Behaviour) *fw.Trace {
 				return &fw.Trace{Status: fw.DriverError, Note: err.Error()}
 			}
 			ev = fw.Event{"ev": "Env", "k": "Blacklist", "c": o.C, "id": "none"}
-		case "Expire":
+		case "Expire", "Bind":
 			cred := r.w.Cred(o.ID)
 			if cred == nil {
-				t.Note = fmt.Sprintf("stopped before step %d: expiry of an identity the server never issued", i+1)
+				t.Note = fmt.Sprintf("stopped before step %d: %s of an identity the server never issued", i+1, o.Op)
 				break
 			}
-			if err := s.ExpireCredentials(cred.ID); err != nil {
+			// through the real client service: ExtendExpiration with a negative number of days puts
+			// the stored expiry date into the past (bound and unbound clients alike); BindToUser
+			// binds the client to a user and clears the date
+			var err error
+			if o.Op == "Expire" {
+				err = s.ExtendExpiration(cred.ID, -2)
+			} else {
+				err = s.BindToUser(cred.ID, "user-"+o.ID)
+			}
+			if err != nil {
+				return &fw.Trace{Status: fw.DriverError, Note: o.Op + ": " + err.Error()}
+			}
+			_, past, err := s.CredentialState(cred.ID)
+			if err != nil {
 				return &fw.Trace{Status: fw.DriverError, Note: err.Error()}
 			}
-			ev = fw.Event{"ev": "Env", "k": "Expire", "c": "none", "id": o.ID}
+			ev = fw.Event{"ev": "Env", "k": o.Op, "c": "none", "id": o.ID, "isexp": past}
 		default:
 			return &fw.Trace{Status: fw.DriverError, Note: "unknown operation " + o.Op}
 		}
@@ -290,6 +311,162 @@ func drive(env *fw.Env, b fw.Behaviour) *fw.Trace {
 		return &fw.Trace{Status: fw.Unrealisable, Note: t.Note}
 	}
 	return t
+}
+
+// ---------------------------------------------------------------------------------------------
+// the protector's periodic clean-up pass interleaved with a fresh ban (DESIGN.md C18 shares the
+// yield point): "clean-up scanned . address banned again . clean-up removes" and then a handshake
+// from that address, which the statement says must be refused.
+
+var (
+	gateArmed atomic.Int32
+	gates     sync.Map // goroutine id -> *gate
+)
+
+type gate struct {
+	parked  chan struct{}
+	release chan struct{}
+	once    sync.Once
+}
+
+func curGid() int64 {
+	var buf [64]byte
+	n := runtime.Stack(buf[:], false)
+	f := strings.Fields(string(buf[:n])) // "goroutine 123 [running]:"
+	if len(f) < 2 {
+		return -1
+	}
+	id, _ := strconv.ParseInt(f[1], 10, 64)
+	return id
+}
+
+// hook is the process-wide verifhook handler: only goroutines that registered a gate park, and only
+// at the entry of the unban (the protector's lazy unban and the clean-up pass go through it).
+func hook(name string, _ any) {
+	if name != "bf.unban.enter" || gateArmed.Load() == 0 {
+		return
+	}
+	if g, ok := gates.Load(curGid()); ok {
+		gt := g.(*gate)
+		gt.once.Do(func() { close(gt.parked) })
+		<-gt.release
+	}
+}
+
+type raceT struct {
+	Race  string `json:"race"`
+	Order string `json:"order"` // "interleaved": ban lands between scan and removal; "sequential": after the pass
+	Kind  string `json:"kind"`  // handshake that follows: "FC" or "P2"
+}
+
+func driveCleanupRace(env *fw.Env, b fw.Behaviour) *fw.Trace {
+	var rc raceT
+	if err := json.Unmarshal(b.Data, &rc); err != nil {
+		return &fw.Trace{Status: fw.DriverError, Note: err.Error()}
+	}
+	s, err := srvkit.NewServer(srvkit.Options{HeartbeatTimeout: time.Hour, CleanupInterval: time.Hour,
+		BruteForce: &security.BruteForceConfig{MaxFailures: maxFail, TimeWindow: time.Hour, BanDuration: time.Hour,
+			PermanentBanAt: 1000, CleanupInterval: time.Hour}})
+	if err != nil {
+		return &fw.Trace{Status: fw.DriverError, Note: err.Error()}
+	}
+	defer s.Close()
+	r := &runner{w: srvkit.NewWorld(s, []string{"c1", "c2"}, []string{"A", "B"}), nonces: map[string][]string{}}
+	for _, n := range r.w.ConnNames {
+		if _, err := r.w.Accept(n); err != nil {
+			return &fw.Trace{Status: fw.DriverError, Note: err.Error()}
+		}
+	}
+	t := &fw.Trace{Status: fw.Realised}
+	add := func(ev fw.Event, why string) bool {
+		if ev == nil {
+			t.Status, t.Note = fw.DriverError, why
+			return false
+		}
+		t.Events = append(t.Events, ev)
+		return true
+	}
+	// an identity for the challenge-response variant, issued on c2 (another address)
+	if ev, _, why := r.msg(opT{Op: "Msg", C: "c2", K: "FC", ID: "none", Type: "control"}); !add(ev, why) {
+		return t
+	}
+	ip := r.w.IP("c1")
+	// an old temporary ban of c1's address whose duration has run out; nobody asked IsBanned since,
+	// so the record is still in the table (3x margin on the duration)
+	const oldBan = 40 * time.Millisecond
+	s.Ban(ip, oldBan)
+	time.Sleep(3 * oldBan)
+	// the clean-up pass on its own goroutine, stopped at the entry of the removal (if it gets there:
+	// a pass that removes expired entries under the scan's own lock never does)
+	g := &gate{parked: make(chan struct{}), release: make(chan struct{})}
+	done := make(chan struct{})
+	gateArmed.Add(1)
+	defer gateArmed.Add(-1)
+	go func() {
+		defer close(done)
+		gid := curGid()
+		gates.Store(gid, g)
+		defer gates.Delete(gid)
+		s.Brute.VerifCleanup()
+	}()
+	released := false
+	release := func() {
+		if !released {
+			released = true
+			close(g.release)
+		}
+	}
+	defer release()
+	if rc.Order == "interleaved" {
+		select {
+		case <-g.parked:
+		case <-done:
+		case <-time.After(5 * time.Second):
+			return &fw.Trace{Status: fw.Inconclusive, Note: "clean-up pass neither parked nor finished"}
+		}
+	} else {
+		release()
+		select {
+		case <-done:
+		case <-time.After(5 * time.Second):
+			return &fw.Trace{Status: fw.Inconclusive, Note: "clean-up pass did not finish"}
+		}
+	}
+	t.Events = append(t.Events, fw.Event{"ev": "Env", "k": "CleanupScanned", "c": "c1", "id": "none"})
+	// the address is banned again (operator ban / threshold reached): in force from now on
+	s.Ban(ip, time.Hour)
+	t.Events = append(t.Events, fw.Event{"ev": "Env", "k": "Ban", "c": "c1", "id": "none"})
+	release()
+	select {
+	case <-done:
+	case <-time.After(5 * time.Second):
+		return &fw.Trace{Status: fw.Inconclusive, Note: "clean-up pass did not finish"}
+	}
+	t.Events = append(t.Events, fw.Event{"ev": "Env", "k": "CleanupDone", "c": "c1", "id": "none"})
+	// handshakes from the banned address
+	if rc.Kind == "FC" {
+		ev, _, why := r.msg(opT{Op: "Msg", C: "c1", K: "FC", ID: "none", Type: "control"})
+		add(ev, why)
+		return t
+	}
+	if ev, _, why := r.msg(opT{Op: "Msg", C: "c1", K: "P1", ID: "A", Type: "control"}); !add(ev, why) {
+		return t
+	}
+	if len(r.nonces["c1"]) > 0 { // only a server that (wrongly) issued a challenge can be answered
+		ev, _, why := r.msg(opT{Op: "Msg", C: "c1", K: "P2", ID: "A", Resp: "ValidLatest", Type: "control"})
+		add(ev, why)
+	}
+	return t
+}
+
+func raceBehaviours(env *fw.Env) []json.RawMessage {
+	var out []json.RawMessage
+	for _, o := range []string{"interleaved", "sequential"} {
+		for _, k := range []string{"FC", "P2"} {
+			out = append(out, fw.MustJSON(raceT{Race: "cleanup-vs-ban", Order: o, Kind: k}))
+		}
+	}
+	return out
 }
 
 func clone(t *fw.Trace, id int) *fw.Trace {
@@ -388,6 +565,7 @@ func withTimeout(d time.Duration, jobs []fw.TLCJob) []fw.TLCJob {
 }
 
 func main() {
+	verifhook.Set(hook)
 	fixes := `{"oneIdentity", "atomicEvict"}` // the tree the model describes (patches/C07-1, C07-2); C03's invariants hold without them too
 	fw.Main(&fw.Property{
 		ID:        "C03",
@@ -434,6 +612,7 @@ func main() {
 			}
 			return 6000
 		},
+		ExtraBeh:    raceBehaviours,
 		Drive:       drive,
 		Parallel:    48,
 		JudgeModule: "SessionTrace",
@@ -449,6 +628,8 @@ func main() {
 			"each replayed on the real ServerAuthHandler/SessionManager; non-trivial = at least 3 messages/environment actions",
 		Assumptions: []string{
 			"every connection has its own remote address; bans and blacklisting are applied through BruteForceProtector.BanIP / IPManager.AddToBlacklist, credential expiry by rewriting the stored ExpiresAt",
+			"credential expiry = Service.ExtendExpiration with a negative number of days, on anonymous clients and on clients bound to a user (Service.BindToUser); the judge takes 'expired' from the stored record (expiry date in the past)",
+			"the protector's clean-up pass is run with VerifCleanup and stopped at the yield point bf.unban.enter (build tag verif) to place a fresh ban between its scan and its removal",
 			"the brute-force threshold is configured to 3 failures (model constant MaxFail) so that organic bans occur inside short behaviours",
 			"the driver's classification of its own responses (whose key, over which challenge) is trusted",
 		},
